@@ -57,6 +57,33 @@ func malformed(g *gen.G, b []byte, flips bool) [][]byte {
 			out = append(out, b[:g.R.Intn(len(b))])
 		}
 	}
+	// unknown fields around the limits of a field number (protowire: 1 .. 2^29-1) and of every wire type
+	varint := func(v uint64) []byte {
+		var o []byte
+		for v >= 0x80 {
+			o = append(o, byte(v)|0x80)
+			v >>= 7
+		}
+		return append(o, byte(v))
+	}
+	for _, num := range []uint64{0, 1, 15, 16, 1<<29 - 1, 1 << 29, 1<<31 - 1, 1 << 31, 1<<32 + 3} {
+		for _, wt := range []uint64{0, 1, 2, 3, 5, 7} {
+			tail := append(append([]byte{}, b...), varint(num<<3|wt)...)
+			switch wt {
+			case 0:
+				tail = append(tail, 0x01)
+			case 1:
+				tail = append(tail, 1, 2, 3, 4, 5, 6, 7, 8)
+			case 2:
+				tail = append(tail, 0x02, 0x61, 0x62) // valid UTF-8: string fields are validated by protobuf-go, the model has byte strings
+			case 5:
+				tail = append(tail, 1, 2, 3, 4)
+			}
+			if g.R.Intn(6) == 0 {
+				out = append(out, tail)
+			}
+		}
+	}
 	if flips && len(b) > 0 {
 		for i := 0; i < 6; i++ {
 			c := append([]byte{}, b...)
